@@ -34,11 +34,12 @@ def expected(props, entries, name):
     for k, v in props:
         if k == b"prefix":
             pre = "S" + V.hx(v); break
-    rd = "NONE"
-    for n, d, ts in entries:
-        if n == name:
-            rd = "S" + V.hx(d); break
-    return "OK\t%s\t%s\t%s\t%s" % (ats, fs, pre, rd)
+    def rd(name):
+        for n, d, ts in entries:
+            if n == name:
+                return "S" + V.hx(d)
+        return "NONE"
+    return "OK\t%s\t%s\t%s\t%s\t%s" % (ats, fs, pre, rd(name), ";".join(rd(n) for n, d, ts in entries))
 
 
 def rand_name(rng):
@@ -84,7 +85,7 @@ def small_archive(rng):
     return props, entries
 
 
-def intact_oracle(filebytes, impl):
+def intact_oracle(filebytes, impl, orig=None):
     """Property oracle on arbitrary bytes: no crash/hang/oom/exception, no FS change,
     and an exposed entry's bytes are a slice of the file (never anything else)."""
     f = impl.split("\t")
@@ -94,12 +95,24 @@ def intact_oracle(filebytes, impl):
         return "reader outcome " + " ".join(f[:-1])
     if f[0] == "FAIL":
         return None
-    if f[0] == "OK" and len(f) == 6:
-        rd = f[4]
-        if rd.startswith("S"):
-            data = V.unhx(rd[1:])
-            if data not in filebytes:
-                return "read returned bytes that are not a block of the file"
+    if f[0] == "OK" and len(f) == 7:
+        listed = [x.split(":") for x in f[2].split(";")] if f[2] else []
+        reads = f[5].split(";") if f[5] else []
+        if len(listed) != len(reads):
+            return "listing and reads differ in length"
+        total = 0
+        for (n, m, sz), rd in zip(listed, reads + [f[4]]):
+            total += int(sz)
+            if rd.startswith("S"):
+                data = V.unhx(rd[1:])
+                if data not in filebytes:
+                    return "a listed entry's bytes are not a block of the file (entry %s, advertised size %s)" % (n, sz)
+                if orig is not None and V.unhx(n) in orig and data != orig[V.unhx(n)]:
+                    return "a truncated archive exposes entry %s with bytes that differ from the stored ones" % n
+        if total > len(filebytes):
+            return "listed entries advertise %d bytes, the file has %d" % (total, len(filebytes))
+        if f[4].startswith("S") and V.unhx(f[4][1:]) not in filebytes:
+            return "read returned bytes that are not a block of the file"
         return None
     return "unparseable harness output"
 
@@ -144,7 +157,7 @@ def main(replay=None):
             fb = pack(props, entries)
             nm = entries[0][0]
             for cut in range(len(fb)):
-                add("truncate", fb[:cut], nm)
+                add("truncate", fb[:cut], nm, "INTACT:" + ";".join(V.hx(n) + "=" + V.hx(d) for n, d, t in reversed(entries)))
             for pos in range(len(fb)):
                 for val in ([0, 255, fb[pos] ^ 1, 63] if thorough else [rng.choice([0, 255, fb[pos] ^ 1])]):
                     if val != fb[pos]:
@@ -205,14 +218,18 @@ def main(replay=None):
             samples.append({"kind": kind, "file_hex": V.hx(fb)[:400], "name_hex": V.hx(nm), "impl": il[:300], "model": ml[:300]})
         rep = {"kind": kind, "file_hex": V.hx(fb), "name_hex": V.hx(nm), "impl": il, "model": ml, "expected": exp}
         # 1. spec on well-formed archives: model and implementation must both report the stored content
-        if exp is not None:
+        orig = None
+        if exp is not None and exp.startswith("INTACT:"):
+            # truncation of a known archive: whatever is still exposed must be the original bytes
+            orig = dict((V.unhx(a.split("=")[0]), V.unhx(a.split("=")[1])) for a in exp[7:].split(";") if a)
+        elif exp is not None:
             if ml != exp:
                 run.violation("MODEL disagrees with the packer's specification (machinery bug)", rep, found_input=False)
             if body != exp:
                 run.violation("well-formed archive not read back faithfully", rep)
                 continue
         # 2. property oracle on any input
-        why = intact_oracle(fb, il)
+        why = intact_oracle(fb, il, orig)
         if why:
             run.violation(why, rep)
             continue
